@@ -10,7 +10,7 @@ RULE = ('a hub daemon V with an honest bystander peer P1 and a second configured
         'two-field combinations) from the configured address and from an unconfigured one, protocol oddities (unknown exchange type, '
         'IKE_SA_INIT for an existing SPI, unsolicited responses, binary vendor IDs / identities, wrong-length IP identities), '
         'authentic-but-malformed protected messages built with the real keys of an established peer, kernel messages (truncated / '
-        'unknown / foreign ACQUIRE and EXPIRE), and sendto / netlink OSError injected at EVERY call index of base histories; PERSISTENT kernel refusals (every DELSA or every NEWSA fails with EPERM / EINVAL / ENOBUFS / ESRCH / OSError for the whole history, the peer then closes its IKE_SA) after which the hub must still retransmit a lost request to its other peer and serve it. Oracle per '
+        'unknown / foreign ACQUIRE and EXPIRE), and sendto / netlink OSError injected at EVERY call index of base histories (netlink: at send time and when the socket of the request is opened, so that _get_socket of the repository runs); events whose handling raises delivered in the very turn in which a retransmission falls due (every blocking select() argument is validated like select.select does; SystemExit and a loop that spins on a refused select() count as terminated); PERSISTENT kernel refusals (every DELSA or every NEWSA fails with EPERM / EINVAL / ENOBUFS / ESRCH / OSError for the whole history, the peer then closes its IKE_SA) after which the hub must still retransmit a lost request to its other peer and serve it. Oracle per '
         'step: the loop comes back to select (LoopExit), executed repository lines <= 4000 + 20*bytes + 40*S + 800*#IKE_SAs (S = SPI counts declared in DELETE headers), and '
         'afterwards the bystander still completes a handshake and a CHILD_SA rekey with mirror-image SADs. distinct = (phase, class, how the step ended).')
 ASSUMPTIONS = ['one event per loop iteration; the hostile party may spoof any source address; authentic-but-malformed messages come from a peer that holds the keys',
@@ -267,6 +267,9 @@ def run(ck):
             hub.sendto_faults[fault[1]] = fault[2]
         if fault and fault[0] == 'netlink':
             hub.kernel.fault_plan[len(hub.kernel.requests) + fault[1]] = ('oserror', fault[2])
+        if fault and fault[0] == 'netlink-socket':
+            # the short-lived netlink socket of that request cannot be opened (EMFILE): the repository's own _get_socket runs and fails
+            hub.kernel.socket_faults[len(hub.kernel.requests) + fault[1]] = fault[2]
         died = []
         sim.monitors.append(lambda s, ep, rec: died.append((ep.name, rec)) if (rec.died and ep is hub) else None)
         for a in scripts[name]:
@@ -301,9 +304,9 @@ def run(ck):
     for name in scripts:
         sim, hub, p1, p2, died = play(name)
         nsend, nnl = hub.sendto_calls, len(hub.kernel.requests) - len(hub.boot_nl)
-        for kind, count in (('sendto', nsend), ('netlink', nnl)):
+        for kind, count in (('sendto', nsend), ('netlink', nnl), ('netlink-socket', nnl)):
             for k in range(count):
-                for err in (errs if kind == 'sendto' else [105]):
+                for err in (errs if kind == 'sendto' else [105] if kind == 'netlink' else [24]):
                     n += 1
                     if not ck.mine(n):
                         continue
@@ -326,6 +329,47 @@ def run(ck):
                         any(x.state == State.ESTABLISHED and x.child_sas and str(x.peer_addr) == P2A for x in hub.ctl.ike_sas)
                     if not ok and not died:
                         ck.violation(f'bystander-not-served:after-injected-{kind}-failure', {'history': name, 'k': k}, sim.case)
+    # ---- an event whose handling RAISES arrives in the very loop turn in which a retransmission falls due (the timer sweep of that turn is skipped):
+    # the next turns must still reach the sweep; the argument of every blocking select() call is validated like select.select does
+    junk_events = [('udp-5-octets', ('udp', XA, b'\x01\x02\x03\x04\x05')), ('udp-init-from-an-unconfigured-address', ('udp', XA, None)),
+                   ('kernel-garbage', ('kernel', None, bytes([20, 0, 0, 0, 0x10, 0, 0, 0]) + bytes(12)))]
+    for ji, (jname, (jkind, jsrc, jdata)) in enumerate(junk_events):
+        for late in (2.05, 2.5, 7.0):
+            n += 1
+            if not ck.mine(n):
+                continue
+            sim, hub, (p1, p2) = S.make_star(base + 55 + ji, peers=2)
+            sim.case = {'event_that_raises_while_a_timer_is_due': jname, 'seconds_after_the_request': late}
+            died = []
+            sim.monitors.append(lambda s_, ep, rec: died.append(rec) if (rec.died and ep is hub) else None)
+            sim.acquire(p1, 0, sport=6600)
+            sim.drain()
+            sim.net.clear()
+            sim.acquire(hub, 1, dport=6700)
+            first = [d.data for d in sim.net if d.dst == P2A]
+            sim.net.clear()
+            sim.clock.advance(late)          # no loop turn in between: the retransmission is due when the junk arrives
+            if jdata is None:
+                m_ = gen.typical_messages(ck.rng('junk', n))['ike_sa_init']
+                jdata = codec.encode_clear(m_)
+            if jkind == 'udp':
+                hub.step('udp', udp=(jsrc, HUB, jdata))
+            else:
+                hub.step('kernel', xfrm_event=jdata)
+            got = [d.data for d in sim.net if d.dst == P2A]
+            for _ in range(4):
+                if got:
+                    break
+                sim.tick_all(0.3)
+                got += [d.data for d in sim.net if d.dst == P2A]
+            ck.count('raising_event_while_timer_due.runs')
+            ck.nontrivial(('raising-event-while-timer-due', jname, late))
+            if died:
+                ck.violation(f'loop-terminated-or-spinning:{type(died[0].exc).__name__}:event-that-raises-while-a-timer-is-due', {'exc': repr(died[0].exc)[:200]}, sim.case)
+            elif not first or not got or got[0] != first[0]:
+                ck.violation('timer-driven-service-dead:retransmission-never-sent-after-an-event-that-raised', {'hub': [(x.state.name, str(x.peer_addr)) for x in hub.ctl.ike_sas]}, sim.case)
+            else:
+                ck.count('raising_event_while_timer_due.retransmitted')
     # ---- PERSISTENT kernel refusals: from the start of a history every request of one type fails (a one-shot fault heals on the next iteration, this does not).
     # Afterwards the hub must still give TIMER-driven service to its other peer: an unanswered request of its own is retransmitted, DPD probes start.
     pers = [(typ, fl) for typ in ('DELSA', 'NEWSA') for fl in (('errno', -1), ('errno', -22), ('errno', -105), ('errno', -3), ('oserror', 105))]
@@ -410,6 +454,8 @@ def verdict(ck):
     ck.floor('kernel oddities', sum(v for k, v in c.items() if k.startswith('hostile.kernel')), 100)
     ck.floor('sendto faults', c['faults.sendto'], 20)
     ck.floor('netlink faults', c['faults.netlink'], 10)
+    ck.floor('failures to open the netlink socket of a request', c['faults.netlink-socket'], 10)
+    ck.floor('events that raise while a retransmission is due, after which the retransmission came', c['raising_event_while_timer_due.retransmitted'], 8)
     ck.floor('persistent kernel refusal runs with live timer service', c['persistent.timer_service_alive'], 20)
     ck.floor('phases', len(ck.sets['phases']), 5)
     return None
